@@ -1,8 +1,8 @@
 #!/bin/sh
-# eval_seeds.sh <ID> [extra check ids…] — confirm and evaluate /tmp/seed/<ID>/out/{1,2,3}
+# eval_seeds.sh <ID> [extra check ids…] — confirm and evaluate $SEEDROOT/<ID>/out/{1,2,3} (SEEDROOT defaults to /tmp/seed)
 id=$1; shift
 for k in 1 2 3; do
-  d=/tmp/seed/$id/out/$k
+  d=${SEEDROOT:-/tmp/seed}/$id/out/$k
   [ -f $d/patch.diff ] || { echo "$d: no patch"; continue; }
   [ -f $d/confirm.json ] || python3 /verif/tools/confirm_seed.py $d
   echo "=== $id/$k"; python3 /verif/tools/try_seed.py $d $id "$@"
